@@ -24,8 +24,10 @@ theorem init_inv (rt : Nat) (st : Bool) (hrt : 0 < rt) : Inv (init rt st) := by
     · intro x hx; cases hx
   · refine { closedAll := (by intro h; cases h), openNone := ?_, waitingLe := ?_, aborted := ?_,
              closersClosing := ?_, returnedAt := ?_, abortsPast := ?_, abortsLost := ?_,
-             waitingLt := ?_ }
+             waitingLt := ?_, startLe := ?_, closedAtNone := fun _ => rfl,
+             closedAtSome := (by intro T hT; cases hT) }
     · intro _ x hx; cases hx
+    · intro x hx; cases hx
     · intro x hx; cases hx
     · intro x hx; cases hx
     · intro x hx; cases hx
@@ -53,8 +55,8 @@ theorem appClose_inv {s : S} (i : Inv s) (c fa : Nat) : Inv (step s (.appClose c
       · refine ⟨doAbort_hinv (i.h.mono rfl rfl id rfl rfl rfl rfl),
                 doAbort_tinv (i.t.mono rfl rfl rfl rfl), ?_⟩
         unfold S.doAbort
-        obtain ⟨h1, h2⟩ := addCloser_cpre i.c hce ⟨c, s.now, .abortedWaiting⟩
-          (s.aborts ++ [s.now]) (Or.inr ⟨rfl, rfl, rfl⟩)
+        obtain ⟨h1, h2⟩ := addCloser_cpre i.c hce ⟨c, s.now, s.now, .abortedWaiting⟩
+          (s.aborts ++ [s.now]) (Nat.le_refl _) (Or.inr ⟨rfl, rfl, rfl⟩)
         exact lose_cinv h1 h2
       · rename_i hfa
         have hfa : 0 < fa := by
@@ -62,12 +64,12 @@ theorem appClose_inv {s : S} (i : Inv s) (c fa : Nat) : Inv (step s (.appClose c
           omega
         refine ⟨transportClose_hinv (i.h.mono rfl rfl id rfl rfl rfl rfl),
                 transportClose_tinv (i.t.mono rfl rfl rfl rfl), ?_⟩
-        obtain ⟨h1, h2⟩ := addCloser_cpre i.c hce ⟨c, s.now + fa, .waiting⟩ s.aborts
-          (Or.inl ⟨rfl, by show s.now < s.now + fa; omega, rfl⟩)
+        obtain ⟨h1, h2⟩ := addCloser_cpre i.c hce ⟨c, s.now, s.now + fa, .waiting⟩ s.aborts
+          (Nat.le_refl _) (Or.inl ⟨rfl, by show s.now < s.now + fa; omega, rfl⟩)
         rcases transportClose_cases
-            { s with closers := s.closers ++ [⟨c, s.now + fa, .waiting⟩] } with
+            { s with closers := s.closers ++ [⟨c, s.now, s.now + fa, .waiting⟩] } with
           ⟨hc, e⟩ | ⟨_, _, e⟩ | ⟨_, _, e⟩ <;> rw [e]
-        · exact { toCPre := h1.mono rfl rfl rfl rfl (fun _ => hc)
+        · exact { toCPre := h1.mono rfl rfl rfl rfl rfl (fun _ => hc)
                   abortsLost := i.c.abortsLost, waitingLt := h2 }
         · exact { toCPre := h1, abortsLost := i.c.abortsLost, waitingLt := h2 }
         · exact lose_cinv h1 h2
@@ -90,13 +92,13 @@ theorem step_inv {s : S} (i : Inv s) (e : Event) : Inv (step s e) := by
     · exact i
     · rename_i hl
       have hl : s.lost = false := by simpa using hl
-      exact ⟨finishHandlers_hinv i.h hl j, i.t.mono rfl rfl rfl rfl, i.c.mono rfl rfl rfl rfl id id⟩
+      exact ⟨finishHandlers_hinv i.h hl j, i.t.mono rfl rfl rfl rfl, i.c.mono rfl rfl rfl rfl rfl id id⟩
   | outgoing k =>
     unfold step
     simp only []
     split
     · exact i
-    · exact ⟨i.h.mono rfl rfl id rfl rfl rfl rfl, outgoing_tinv i.t k, i.c.mono rfl rfl rfl rfl id id⟩
+    · exact ⟨i.h.mono rfl rfl id rfl rfl rfl rfl, outgoing_tinv i.t k, i.c.mono rfl rfl rfl rfl rfl id id⟩
   | answer k =>
     unfold step
     simp only []
@@ -105,12 +107,12 @@ theorem step_inv {s : S} (i : Inv s) (e : Event) : Inv (step s e) := by
     · rename_i hc
       simp only [Bool.or_eq_true, not_or, Bool.not_eq_true] at hc
       exact ⟨i.h.mono rfl rfl id rfl rfl rfl rfl, answer_tinv i.t hc.2 k,
-             i.c.mono rfl rfl rfl rfl id id⟩
+             i.c.mono rfl rfl rfl rfl rfl id id⟩
   | drop =>
     unfold step
     exact ⟨lose_hinv (i.h.mono rfl rfl (fun _ => rfl) rfl rfl rfl rfl),
            lose_tinv (i.t.mono rfl rfl rfl rfl),
-           lose_cinv (i.c.toCPre.mono rfl rfl rfl rfl (fun _ => rfl)) i.c.waitingLt⟩
+           lose_cinv (i.c.toCPre.mono rfl rfl rfl rfl rfl (fun _ => rfl)) i.c.waitingLt⟩
   | appClose c fa => exact appClose_inv i c fa
   | abort => exact ⟨doAbort_hinv i.h, doAbort_tinv i.t, doAbort_cinv i.c⟩
   | advance dt => exact ⟨advance_hinv dt i.h, advance_tinv dt i.t, advance_cinv dt i.c⟩
